@@ -28,6 +28,7 @@ meta = {
     "ran": ["git -C /repo apply seeded/%s/patch.diff ; ./check %s ; git -C /repo checkout -- ." % (sid, prop),
             "confirm_seeded.sh (scratch worktree): suite with change, demo with change, demo without"],
     "detected_by": keys,
+    "status": "detected" if keys else "not detected (see needs_to_manifest for the reason)",
     "expect_key_prefix": expect if expect != "-" else (keys[0] if keys else ""),
 }
 json.dump(meta, open(os.path.join(d, "meta.json"), "w"), indent=1, ensure_ascii=False)
